@@ -101,6 +101,9 @@ type scen struct {
 	Batches [][]int `json:"batches"` // per producer
 	Bound   int     `json:"bound"`
 	Prefix  []int   `json:"schedule_prefix,omitempty"`
+	// Before: batches of an earlier render to the same path in the same execution (file sinks): the sink must
+	// hold exactly what the second render wrote
+	Before []int `json:"earlier_render_to_the_same_path,omitempty"`
 }
 
 func total(b []int) int {
@@ -274,6 +277,9 @@ func (sc scen) body() (func(), func() ([]int, string)) {
 	case "tostl":
 		return func() {
 				vos.Reset(nil)
+				if len(sc.Before) > 0 {
+					render.ToSTL(dummy3{}, "out.stl", scripted3{sc.Before})
+				}
 				render.ToSTL(dummy3{}, "out.stl", scripted3{sc.Batches[0]})
 			}, func() ([]int, string) {
 				d := vos.Files["out.stl"]
@@ -311,6 +317,9 @@ func (sc scen) body() (func(), func() ([]int, string)) {
 	case "tosvg":
 		return func() {
 				vos.Reset(nil)
+				if len(sc.Before) > 0 {
+					render.ToSVG(dummy2{}, "out.svg", scripted2{sc.Before})
+				}
 				render.ToSVG(dummy2{}, "out.svg", scripted2{sc.Batches[0]})
 			}, func() ([]int, string) {
 				d := vos.Files["out.svg"]
@@ -338,6 +347,9 @@ func (sc scen) body() (func(), func() ([]int, string)) {
 		path := filepath.Join(work, fmt.Sprintf("p%d.3mf", os.Getpid()))
 		return func() {
 				os.Remove(path)
+				if len(sc.Before) > 0 {
+					render.To3MF(dummy3{}, path, scripted3{sc.Before})
+				}
 				render.To3MF(dummy3{}, path, scripted3{sc.Batches[0]})
 			}, func() ([]int, string) {
 				r, err := go3mf.OpenReader(path)
@@ -378,6 +390,9 @@ func (sc scen) body() (func(), func() ([]int, string)) {
 		path := filepath.Join(work, fmt.Sprintf("p%d.dxf", os.Getpid()))
 		return func() {
 				os.Remove(path)
+				if len(sc.Before) > 0 {
+					render.ToDXF(dummy2{}, path, scripted2{sc.Before})
+				}
 				render.ToDXF(dummy2{}, path, scripted2{sc.Batches[0]})
 			}, func() ([]int, string) {
 				d, err := dxf.FromFile(path)
@@ -554,7 +569,7 @@ func main() {
 		rec(nil)
 		return out
 	}
-	maxLen := 3
+	maxLen := vlib.Pick(c, 3, 4)
 	for _, s := range seqs(menu(T), maxLen) {
 		scens = append(scens, scen{Kind: "tbuf", Batches: [][]int{s}, Bound: -1})
 	}
@@ -562,7 +577,7 @@ func main() {
 		scens = append(scens, scen{Kind: "lbuf", Batches: [][]int{s}, Bound: -1})
 	}
 	// sinks: the real collector and file writers, single producer
-	sinkSeqs := seqs([]int{0, 1, T - 1, T, T + 1, 2*T + 3}, 2)
+	sinkSeqs := seqs([]int{0, 1, T - 1, T, T + 1, 2*T + 3}, vlib.Pick(c, 2, 3))
 	for _, s := range sinkSeqs {
 		scens = append(scens, scen{Kind: "tbuf-collector", Batches: [][]int{s}, Bound: -1}, scen{Kind: "totriangles", Batches: [][]int{s}, Bound: -1}, scen{Kind: "tostl", Batches: [][]int{s}, Bound: -1})
 	}
@@ -577,8 +592,25 @@ func main() {
 	for _, s := range seqs([]int{0, 1, L - 1, L, L + 1, 2*L + 3}, 2) {
 		scens = append(scens, scen{Kind: "todxf", Batches: [][]int{s}, Bound: -1})
 	}
+	// a longer render to the same path first: the sink must hold exactly the second render
+	for _, k := range []string{"tostl", "tosvg", "to3mf", "todxf"} {
+		for _, before := range [][]int{{300}, {5}} {
+			for _, now := range [][]int{{0}, {1}, {7}, {130, 3}} {
+				if k == "tosvg" && total(now) == 0 {
+					continue
+				}
+				scens = append(scens, scen{Kind: k, Batches: [][]int{now}, Before: before, Bound: -1})
+			}
+		}
+	}
 	// multi-producer
-	pm := func(t int) [][]int { return [][]int{{1}, {t - 1}, {t}, {t + 1}, {1, t}, {t - 1, 2}, {t, t}} }
+	pm := func(t int) [][]int {
+		m := [][]int{{1}, {t - 1}, {t}, {t + 1}, {1, t}, {t - 1, 2}, {t, t}}
+		if c.Thorough() {
+			m = append(m, []int{0, t}, []int{2, t - 2, 1}, []int{t + 1, t - 1}, []int{2*t + 3}, []int{1, 1, 1})
+		}
+		return m
+	}
 	bound := -1 // unbounded: every interleaving (with happens-before state pruning)
 	for _, a := range pm(T) {
 		for _, b := range pm(T) {
@@ -591,9 +623,13 @@ func main() {
 		}
 	}
 	b3 := vlib.Pick(c, 3, -1)
-	for _, a := range [][]int{{T}, {T - 1, 2}, {1}} {
-		for _, b := range [][]int{{T}, {2}} {
-			for _, d := range [][]int{{T + 1}, {1}} {
+	p3a, p3b, p3d := [][]int{{T}, {T - 1, 2}, {1}}, [][]int{{T}, {2}}, [][]int{{T + 1}, {1}}
+	if c.Thorough() {
+		p3a, p3b, p3d = append(p3a, []int{1, T}), append(p3b, []int{T - 1, 1}), append(p3d, []int{T, 1})
+	}
+	for _, a := range p3a {
+		for _, b := range p3b {
+			for _, d := range p3d {
 				scens = append(scens, scen{Kind: "tbuf", Batches: [][]int{a, b, d}, Bound: b3}, scen{Kind: "tbuf-collector", Batches: [][]int{a, b, d}, Bound: b3})
 			}
 		}
